@@ -194,17 +194,19 @@ def decode_ref(e, mu, dim):
 
 
 def request_orders(rng, nacon):
-  """Request lists for mjw.contact_force: identity, reversed, permuted, a subset, repeats, and lists with ids that
-  name no contact (>= nacon: the slot must stay untouched; -1: zero wrench, as mj_contactForce)."""
+  """(safe, adversarial) request lists for mjw.contact_force.  safe: identity, reversed, permuted, a subset, repeats -
+  every id names a contact.  adversarial: lists with ids that name no contact (>= nacon: the slot must stay untouched;
+  -1: zero wrench, as mj_contactForce) - these are launched in a worker process (a crash must not kill the check)."""
   idn = np.arange(nacon)
-  out = [("identity", idn), ("reversed", idn[::-1])]
+  safe = [("identity", idn), ("reversed", idn[::-1])]
   if nacon > 1:
-    out.append(("permuted", rng.permutation(nacon)))
-    out.append(("subset", rng.permutation(nacon)[: max(1, nacon // 2)]))
-    out.append(("repeats", rng.integers(0, nacon, nacon + 2)))
+    safe.append(("permuted", rng.permutation(nacon)))
+    safe.append(("subset", rng.permutation(nacon)[: max(1, nacon // 2)]))
+    safe.append(("repeats", rng.integers(0, nacon, nacon + 2)))
   mixed = np.concatenate([rng.permutation(nacon)[: max(1, nacon - 1)], [nacon, -1, nacon + 3]])
-  out.append(("out-of-range", rng.permutation(mixed)))
-  return [(n, np.asarray(x, dtype=np.int32)) for n, x in out]
+  adv = [("out-of-range", rng.permutation(mixed))]
+  cv = lambda l: [(n, np.asarray(x, dtype=np.int32)) for n, x in l]  # noqa: E731
+  return cv(safe), cv(adv)
 
 
 def contact_forces(m, d, mm, dd, cfg, rng=None, orders=None):
@@ -257,7 +259,7 @@ def contact_forces(m, d, mm, dd, cfg, rng=None, orders=None):
         st["matched"] += 1
         break
   if orders is None:
-    orders = request_orders(rng if rng is not None else np.random.default_rng(0), nacon)
+    orders = request_orders(rng if rng is not None else np.random.default_rng(0), nacon)[0]
   for oname, ids in orders:
     st["orders"].add(oname)
     for tw in (False, True):
@@ -295,17 +297,10 @@ def contact_forces(m, d, mm, dd, cfg, rng=None, orders=None):
   return fails, st
 
 
-def kvalidate(res, trk, ncases):
-  """The translated contact_force_kernel vs the real kernel on the same launch: 2-4 worlds with different efc_force rows,
-  request lists permuted / reversed / subsets / repeats / ids >= nacon."""
-  import kvalid
-
-  import mujoco_warp._src.support as sp
-
-  fi = getattr(trk, "kernels", {}).get("contact_force_kernel")
-  if fi is None:
-    return [{"error": "kernel contact_force_kernel did not translate", "detail": getattr(trk, "errors", {})}]
-  rng = np.random.default_rng(vlib.seed() + 3940)
+def kv_cases(ncases, seed):
+  """Launch arguments for contact_force_kernel (numpy only): 2-4 worlds with different efc_force rows, request lists
+  permuted / reversed / subsets / repeats / ids >= nacon; the world of a contact never equals its slot by construction."""
+  rng = np.random.default_rng(seed + 3940)
   cases, infos = [], []
   for k in range(ncases):
     nworld, NJ = int(rng.integers(2, 5)), 14
@@ -314,7 +309,7 @@ def kvalidate(res, trk, ncases):
     cone = k % 2
     cdim = rng.choice([1, 3, 4, 6], ncon).astype(np.int32)
     cworld = rng.integers(0, nworld, ncon).astype(np.int32)
-    cworld[: min(ncon, nworld)] = rng.permutation(nworld)[: min(ncon, nworld)]  # every world is used, worlds differ from slots
+    cworld[: min(ncon, nworld)] = rng.permutation(nworld)[: min(ncon, nworld)]
     cadr = -np.ones((ncon, 10), dtype=np.int32)
     for c in range(ncon):
       nrows = int(cdim[c]) if (cone != 0 or cdim[c] == 1) else 2 * (int(cdim[c]) - 1)
@@ -331,12 +326,130 @@ def kvalidate(res, trk, ncases):
       efc_force_in=efc, njmax_in=NJ, nacon_in=np.array([nacon], dtype=np.int32), contact_ids=ids, to_world_frame=bool(k % 3 == 0),
       out=np.full((len(ids), 6), 7.0, dtype=np.float32),
     )  # fmt: skip
-    cases.append(dict(kernel=sp.contact_force_kernel, fi=fi, dim=(len(ids),), args=args, written=["out"]))
-    infos.append({"nworld": nworld, "cone": int(cone), "contact_ids": ids.tolist(), "contact_worldid": cworld.tolist(), "contact_dim": cdim.tolist(), "nacon": nacon})
-    res.nontrivial(("kv", k, nworld, tuple(ids.tolist())))
-  verdicts = kvalid.run_cases(res, "C39k", "Gen.support", cases, tol=1e-4)
-  res.extra["kernel_validation"] = {"cases": len(cases), "agree": verdicts.count(0), "discarded": verdicts.count(1), "disagree": verdicts.count(2)}
-  return [{"case": i, **infos[i]} for i, v in enumerate(verdicts) if v == 2]
+    cases.append(dict(dim=(len(ids),), args=args, written=["out"]))
+    infos.append({"nworld": nworld, "cone": int(cone), "contact_ids": ids.tolist(), "contact_worldid": cworld.tolist(), "contact_dim": cdim.tolist(), "nacon": nacon, "to_world_frame": bool(k % 3 == 0)})
+  return cases, infos
+
+
+def kv_launch(case):
+  """The REAL kernel on one kv case (worker process); returns the out buffer."""
+  import warp as wp
+
+  import mujoco_warp._src.support as sp
+  from mujoco_warp._src.types import vec5
+
+  a = case["args"]
+  out = wp.array(a["out"].copy(), dtype=wp.spatial_vector)
+  wp.launch(
+    sp.contact_force_kernel, dim=case["dim"],
+    inputs=[a["opt_cone"], wp.array(a["contact_frame_in"], dtype=wp.mat33), wp.array(a["contact_friction_in"], dtype=vec5), wp.array(a["contact_dim_in"], dtype=int),
+            wp.array(a["contact_efc_address_in"], dtype=int), wp.array(a["contact_worldid_in"], dtype=int), wp.array(a["contact_adhesion_in"], dtype=float),
+            wp.array(a["efc_force_in"], dtype=float), a["njmax_in"], wp.array(a["nacon_in"], dtype=int), wp.array(a["contact_ids"], dtype=int), a["to_world_frame"]],
+    outputs=[out],
+  )  # fmt: skip
+  wp.synchronize()
+  return out.numpy()
+
+
+def kvalidate(res, trk, ncases, outs):
+  """The translated contact_force_kernel vs the buffers the real kernel produced (launched in the worker process)."""
+  import kvalid
+
+  fi = getattr(trk, "kernels", {}).get("contact_force_kernel")
+  if fi is None:
+    return [{"error": "kernel contact_force_kernel did not translate", "detail": getattr(trk, "errors", {})}]
+  cases, infos = kv_cases(ncases, vlib.seed())
+  use = []
+  for k, c in enumerate(cases):
+    if k >= len(outs) or outs[k] is None:
+      continue
+    c["fi"] = fi
+    c["after"] = {p: (np.asarray(outs[k], dtype=np.float32) if p == "out" else v) for p, v in c["args"].items() if isinstance(v, np.ndarray)}
+    use.append(k)
+    res.nontrivial(("kv", k, infos[k]["nworld"], tuple(infos[k]["contact_ids"])))
+  verdicts = kvalid.run_cases(res, "C39k", "Gen.support", [cases[k] for k in use], tol=1e-4)
+  res.extra["kernel_validation"] = {"cases": len(use), "agree": verdicts.count(0), "discarded": verdicts.count(1), "disagree": verdicts.count(2)}
+  return [{"case": use[i], **infos[use[i]]} for i, v in enumerate(verdicts) if v == 2]
+
+
+# ---------------------------------------------------------------------------------------------
+# crash-tolerant worker: real launches on adversarial request lists run in a child process
+# ---------------------------------------------------------------------------------------------
+def run_worker(spec, timeout=600):
+  """spec = {"seed", "kv": ncases, "scenes": [{xml,qpos,qvel,config,orders:[(name, ids)]}]}.  Returns (result, crash) where
+  crash = None or {"returncode", "stage", "item"}: the item being processed when the child died."""
+  import json
+  import subprocess
+  import tempfile
+
+  d = tempfile.mkdtemp(prefix="c39w_", dir=vlib.BUILD)
+  sp_, out_, prog_ = (os.path.join(d, n) for n in ("spec.json", "out.json", "progress.txt"))
+  with open(sp_, "w") as fh:
+    json.dump(spec, fh)
+  try:
+    p = subprocess.run([sys.executable, os.path.abspath(__file__), "--worker", sp_, out_, prog_], capture_output=True, text=True, timeout=timeout)
+    rc, tail = p.returncode, (p.stderr or "")[-600:]
+  except subprocess.TimeoutExpired:
+    rc, tail = -999, "timeout"
+  result = {"kv": [], "scenes": []}
+  try:
+    with open(out_) as fh:
+      result = json.load(fh)
+  except Exception:
+    pass
+  crash = None
+  if rc != 0:
+    stage, item = "start", -1
+    try:
+      with open(prog_) as fh:
+        last = fh.read().strip().splitlines()[-1].split()
+        stage, item = last[0], int(last[1])
+    except Exception:
+      pass
+    crash = {"returncode": rc, "stage": stage, "item": item, "stderr_tail": tail}
+    # partial results written before the crash
+    try:
+      with open(out_ + ".partial") as fh:
+        result = json.load(fh)
+    except Exception:
+      pass
+  return result, crash
+
+
+def worker_main(spec_path, out_path, prog_path):
+  import json
+  import warnings
+
+  warnings.filterwarnings("ignore")
+  import warp as wp
+
+  wp.config.quiet = True
+  from props import C06 as B
+
+  spec = json.load(open(spec_path))
+  result = {"kv": [], "scenes": []}
+
+  def mark(stage, i):
+    with open(prog_path, "a") as fh:
+      fh.write(f"{stage} {i}\n")
+      fh.flush()
+      os.fsync(fh.fileno())
+    with open(out_path + ".partial", "w") as fh:
+      json.dump(result, fh, default=float)
+
+  cases, _ = kv_cases(int(spec.get("kv", 0)), int(spec.get("seed", 0)))
+  for k, c in enumerate(cases):
+    mark("kv", k)
+    result["kv"].append(kv_launch(c).tolist())
+  for i, sc in enumerate(spec.get("scenes", [])):
+    mark("scene", i)
+    m, dl, mm, dd = B.run_batch(sc["xml"], sc["qpos"], sc["qvel"])
+    orders = [(n, np.asarray(x, dtype=np.int32)) for n, x in sc["orders"]]
+    f, st = contact_forces(m, dl, mm, dd, sc["config"], orders=orders)
+    st = {k: (sorted(map(list, v)) if isinstance(v, set) and v and isinstance(next(iter(v)), tuple) else (sorted(v) if isinstance(v, set) else v)) for k, v in st.items()}
+    result["scenes"].append({"fails": f[:6], "stats": st})
+  with open(out_path, "w") as fh:
+    json.dump(result, fh, default=float)
 
 
 def forward_oracle(res, nscenes):
@@ -345,7 +458,7 @@ def forward_oracle(res, nscenes):
   from props import C06 as B
 
   rng = np.random.default_rng(vlib.seed() + 39)
-  fails = []
+  fails, adv_scenes, reported = [], [], set()
   agg = {"contacts": 0, "matched": 0, "dims": set(), "worst_mj": 0.0, "worst_decode": 0.0, "same_constraint_set": 0, "slots": 0, "orders": set(), "nworlds": set()}
   for k in range(nscenes):
     cone = ("pyramidal", "elliptic")[k % 2]
@@ -356,8 +469,10 @@ def forward_oracle(res, nscenes):
     qp, qv = B.batch_states(rng, m, nworld)  # one state per world
     m, dl, mm, dd = B.run_batch(xml, qp, qv)
     cfg = dict(cfg, nworld=nworld)
-    orders = request_orders(rng, int(dd.nacon.numpy()[0]))
+    orders, adv = request_orders(rng, int(dd.nacon.numpy()[0]))
     f, st = contact_forces(m, dl, mm, dd, cfg, orders=orders)
+    if int(dd.nacon.numpy()[0]):
+      adv_scenes.append({"xml": xml, "qpos": qp.tolist(), "qvel": qv.tolist(), "config": cfg, "orders": [(n, x.tolist()) for n, x in adv]})
     res.count()
     for key in ("contacts", "matched", "same_constraint_set", "slots"):
       agg[key] += st.get(key, 0)
@@ -374,9 +489,14 @@ def forward_oracle(res, nscenes):
     for x in f:
       if x["site"] not in sites and len(sites) < 4:
         sites.add(x["site"])
-        fails.append({"xml": xml, "qpos": qp.tolist(), "qvel": qv.tolist(), "config": cfg, "failure": x})
+        rec = {"xml": xml, "qpos": qp.tolist(), "qvel": qv.tolist(), "config": cfg, "failure": x}
+        fails.append(rec)
+        key = f"C39:contact_force:{x['site']}"
+        if key not in reported and len(reported) < 6:  # reported at once: later (adversarial) launches may kill a process
+          reported.add(key)
+          res.violation(key, f"mjw.contact_force: {x}", rec)
   res.extra["contact_force_oracle"] = {k: (sorted(map(lambda z: list(z) if isinstance(z, tuple) else z, v)) if isinstance(v, set) else (round(v, 7) if isinstance(v, float) else v)) for k, v in agg.items()}
-  return fails, agg
+  return fails, agg, adv_scenes
 
 
 def run(res):
@@ -405,23 +525,53 @@ def run(res):
       tbad = [{"error": str(e)[-400:]}]
     search = search or bool(tbad)
     tm["tvalid"] = round(time.time() - t0, 1)
+  fails, agg, adv_scenes = forward_oracle(res, (20 if quick else 200) * (2 if search else 1))
+  tm["forward"] = round(time.time() - t0, 1)
+  res.obligation("oracle reached every (cone, condim) combination", len(agg["dims"]) >= 8, f"{sorted(agg['dims'])}")
+  # real launches on adversarial request lists (ids that name no contact) and the kernel-validation launches run in
+  # a child process: a crash there is a violation with the request list, not the death of the check
+  nkv = 15 if quick else 60
+  wres, crash = run_worker({"seed": vlib.seed(), "kv": nkv, "scenes": adv_scenes[: (12 if quick else 60)]})
+  tm["worker"] = round(time.time() - t0, 1)
+  if crash is not None:
+    if crash["stage"] == "scene" and 0 <= crash["item"] < len(adv_scenes):
+      sc = adv_scenes[crash["item"]]
+      data = {"xml": sc["xml"], "qpos": sc["qpos"], "qvel": sc["qvel"], "config": sc["config"], "failure": {"site": "crash", "order": sc["orders"][0][0], "contact_ids": sc["orders"][0][1], "returncode": crash["returncode"]}}
+      res.violation("C39:contact_force:crash:out-of-range-request", f"mjw.contact_force kills the process (exit {crash['returncode']}) on a request list with ids that name no contact", data)
+      fails = fails + [data]
+    elif crash["stage"] == "kv":
+      _, infos = kv_cases(nkv, vlib.seed())
+      data = {"kv_case": crash["item"], "returncode": crash["returncode"], **infos[crash["item"]]}
+      res.violation("C39:contact_force_kernel:crash:generated-launch", f"contact_force_kernel kills the process (exit {crash['returncode']}) on a generated launch", data)
+      fails = fails + [data]
+    else:
+      res.violation("C39:worker-crash", f"worker process died before any launch: {crash}", crash, found_input=False)
+  res.obligation("worker process (adversarial request lists, kernel-validation launches) ran to completion", crash is None, str(crash))
+  nadv = 0
+  for sc, r in zip(adv_scenes, wres.get("scenes", [])):
+    nadv += 1
+    agg["orders"].add("out-of-range")
+    agg["slots"] += r["stats"].get("slots", 0)
+    for x in r["fails"][:2]:
+      rec = {"xml": sc["xml"], "qpos": sc["qpos"], "qvel": sc["qvel"], "config": sc["config"], "failure": x}
+      fails.append(rec)
+      res.violation(f"C39:contact_force:{x['site']}", f"mjw.contact_force: {x}", rec)
+  res.count(nadv)
+  res.extra["contact_force_oracle"]["adversarial_scenes"] = nadv
+  res.extra["contact_force_oracle"]["orders"] = sorted(agg["orders"])
+  res.extra["contact_force_oracle"]["slots"] = agg["slots"]
+  res.obligation("oracle reached batches of 2, 3 and 4 different worlds and every request order", {2, 3, 4} <= agg["nworlds"] and len(agg["orders"]) >= 6, f"nworld {sorted(agg['nworlds'])}, orders {sorted(agg['orders'])}")
   kbad = []
   if tr is not None:
     try:
-      kbad = kvalidate(res, tr, 15 if quick else 60)
+      kbad = kvalidate(res, tr, nkv, wres.get("kv", []))
     except RuntimeError as e:
       kbad = [{"error": str(e)[-400:]}]
-    res.obligation("kernel validation: translated contact_force_kernel agrees with the real kernel (2-4 worlds, permuted/reversed/subset/repeated/out-of-range requests)", not kbad, f"{len(kbad)} disagreements")
+    res.obligation("kernel validation: translated contact_force_kernel agrees with the real kernel (2-4 worlds, permuted/reversed/subset/repeated/out-of-range requests)", not kbad and res.extra.get("kernel_validation", {}).get("cases", 0) >= (nkv if crash is None else 0), f"{len(kbad)} disagreements, {res.extra.get('kernel_validation')}")
     search = search or bool(kbad)
     tm["kvalid"] = round(time.time() - t0, 1)
-  fails, agg = forward_oracle(res, (20 if quick else 200) * (2 if search else 1))
-  tm["forward"] = round(time.time() - t0, 1)
-  res.obligation("oracle reached every (cone, condim) combination", len(agg["dims"]) >= 8, f"{sorted(agg['dims'])}")
-  res.obligation("oracle reached batches of 2, 3 and 4 different worlds and every request order", {2, 3, 4} <= agg["nworlds"] and len(agg["orders"]) >= 6, f"nworld {sorted(agg['nworlds'])}, orders {sorted(agg['orders'])}")
   for f in sfails[:3]:
     res.violation(f"C39:{f['site']}:spec", "compiled function differs from mju_decodePyramid / mj_contactForce semantics on this input", f)
-  for f in fails[:4]:
-    res.violation(f"C39:contact_force:{f['failure']['site']}", f"mjw.contact_force: {f['failure']}", f)
   fails = fails or sfails
   if kbad and not fails:
     res.violation("C39:kernel-translation-mismatch", "translated contact_force_kernel disagrees with the real kernel (kernel-level theorem no longer tied to code)", kbad[:3], found_input=False)
@@ -469,10 +619,25 @@ def replay(res, path):
     return 1
   from props import C06 as B
 
-  m, d, mm, dd = B.run_batch(r["xml"], r["qpos"], r["qvel"])
+  if isinstance(r, dict) and "kv_case" in r:
+    wres, crash = run_worker({"seed": vlib.seed(), "kv": int(r["kv_case"]) + 1, "scenes": []})
+    print("worker:", "completed" if crash is None else f"died {crash}")
+    return 0 if crash is None else 1
   x = r.get("failure", {})
+  if x.get("site") == "crash" or x.get("order") == "out-of-range":  # adversarial request list: launched in a child process
+    wres, crash = run_worker({"seed": 0, "kv": 0, "scenes": [{"xml": r["xml"], "qpos": r["qpos"], "qvel": r["qvel"], "config": r["config"], "orders": [(x.get("order", "stored"), x["contact_ids"])]}]})
+    print("worker:", "completed" if crash is None else f"died {crash}")
+    fl = wres["scenes"][0]["fails"] if wres.get("scenes") else []
+    print("failures:", fl[:3])
+    return 1 if (crash is not None or fl) else 0
+  m, d, mm, dd = B.run_batch(r["xml"], r["qpos"], r["qvel"])
   orders = [(x.get("order", "stored"), np.asarray(x["contact_ids"], dtype=np.int32))] if "contact_ids" in x else None
   f, st = contact_forces(m, d, mm, dd, r["config"], rng=np.random.default_rng(0), orders=orders)
   print("stats:", st)
   print("failures:", f[:5])
   return 1 if f else 0
+
+
+if __name__ == "__main__":
+  if len(sys.argv) == 5 and sys.argv[1] == "--worker":
+    worker_main(sys.argv[2], sys.argv[3], sys.argv[4])
